@@ -34,6 +34,9 @@ type FieldT struct {
 	Tag  string // validate tag
 	Kind string // string int bool pstring struct pstruct sstring sint sstruct ssstring map
 	Sub  *TypeT `json:",omitempty"`
+	// Embed: an embedded struct (or pointer to struct) without json tag — encoding/json promotes its
+	// fields to the enclosing object, so they occur in the body (and in presence) without a prefix
+	Embed bool `json:",omitempty"`
 }
 
 // TypeT describes a struct type; the Go field names are F0, F1, ….
@@ -75,6 +78,10 @@ func (t *TypeT) reflectType() reflect.Type {
 		if f.Tag != "" {
 			tag += ` validate:"` + f.Tag + `"`
 		}
+		if f.Embed {
+			fs[i] = reflect.StructField{Name: "E" + strconv.Itoa(i), Type: ft, Anonymous: true}
+			continue
+		}
 		fs[i] = reflect.StructField{Name: "F" + strconv.Itoa(i), Type: ft, Tag: reflect.StructTag(tag)}
 	}
 	return reflect.StructOf(fs)
@@ -114,6 +121,21 @@ type FullC struct {
 	Plain    string      `validate:"omitempty,max=2"`
 }
 
+// FullE embeds a struct (by value) and another one by pointer: their fields are promoted in JSON.
+type EBase struct {
+	ID   string `json:"id" validate:"required,min=3"`
+	Kind string `json:"kind" validate:"omitempty,oneof=a b"`
+}
+type EMeta struct {
+	Token string `json:"token" validate:"omitempty,min=8"`
+}
+type FullE struct {
+	EBase
+	*EMeta
+	Name string  `json:"name" validate:"required,min=3"`
+	Kids []EBase `json:"kids" validate:"omitempty,max=1,dive"`
+}
+
 // FullV has a Validate() method of its own (interface strategy, and WithRunAll together with tags).
 type FullV struct {
 	Email string `json:"email" validate:"required,email"`
@@ -136,6 +158,7 @@ func (f *FullV) Validate() error {
 
 var namedTypes = map[string]reflect.Type{
 	"FullV": reflect.TypeOf(FullV{}),
+	"FullE": reflect.TypeOf(FullE{}),
 	"FullA": reflect.TypeOf(FullA{}),
 	"FullB": reflect.TypeOf(FullB{}),
 	"FullC": reflect.TypeOf(FullC{}),
@@ -151,6 +174,9 @@ func describe(t reflect.Type) *TypeT {
 			name = f.Name
 		}
 		ft := FieldT{JSON: name, Tag: f.Tag.Get("validate")}
+		if f.Anonymous && f.Tag.Get("json") == "" {
+			ft.Embed = true
+		}
 		switch {
 		case f.Type.Kind() == reflect.String:
 			ft.Kind = "string"
@@ -236,28 +262,53 @@ var tagsFor = map[string][]string{
 var kinds = []string{"string", "string", "string", "int", "int", "bool", "pstring", "struct", "struct", "pstruct", "sstring", "sstring", "ssstring", "sint", "sstruct", "sstruct", "map"}
 
 func genType(r *hx.Rand, depth int) *TypeT {
+	return genTypeIn(r, depth, map[string]bool{}, depth < 2 && r.Chance(1, 5))
+}
+
+// genTypeIn generates a struct type whose field names avoid `used`. With `embeds` the struct may
+// embed other structs: they share its JSON namespace, and names are then kept distinct
+// case-insensitively (encoding/json matches names that way and drops colliding promoted fields).
+func genTypeIn(r *hx.Rand, depth int, used map[string]bool, embeds bool) *TypeT {
 	n := r.Range(1, 5)
 	t := &TypeT{}
-	used := map[string]bool{}
+	key := func(name string) string {
+		if embeds {
+			return strings.ToLower(name)
+		}
+		return name
+	}
 	for i := 0; i < n; i++ {
 		var name string
 		for tries := 0; ; tries++ {
 			name = hx.Pick(r, keyPool)
 			// json tag names: encoding/json accepts letters, digits and !#$%&()*+-./:;<=>?@[]^_{|}~ and space;
 			// no comma, no quote, not empty, not "-"
-			if name == "" || strings.ContainsAny(name, ",\"'\\") || used[name] || !validTagName(name) {
+			if name == "" || strings.ContainsAny(name, ",\"'\\") || used[key(name)] || !validTagName(name) {
+				if tries > 300 {
+					return t // the name pool is exhausted at this level
+				}
 				continue
 			}
 			break
 		}
-		used[name] = true
 		k := hx.Pick(r, kinds)
 		if depth >= 3 && (k == "struct" || k == "pstruct" || k == "sstruct") {
 			k = "string"
 		}
 		f := FieldT{JSON: name, Kind: k, Tag: hx.Pick(r, tagsFor[k])}
-		if k == "struct" || k == "pstruct" || k == "sstruct" {
+		switch {
+		case embeds && (k == "struct" || k == "pstruct") && r.Chance(1, 2):
+			// embedded: its fields live in this struct's JSON object
+			f.Embed, f.Tag = true, ""
+			f.Sub = genTypeIn(r, depth+1, used, true)
+			if len(f.Sub.Fields) == 0 {
+				continue
+			}
+		case k == "struct" || k == "pstruct" || k == "sstruct":
+			used[key(name)] = true
 			f.Sub = genType(r, depth+1)
+		default:
+			used[key(name)] = true
 		}
 		t.Fields = append(t.Fields, f)
 	}
@@ -382,6 +433,13 @@ func (o objT) MarshalJSON() ([]byte, error) {
 func genObject(r *hx.Rand, t *TypeT, depth int) objT {
 	var o objT
 	for _, f := range t.Fields {
+		if f.Embed {
+			if f.Kind == "pstruct" && r.Chance(1, 3) {
+				continue // none of its fields present: the embedded pointer stays nil
+			}
+			o = append(o, genObject(r, f.Sub, depth)...)
+			continue
+		}
 		if r.Chance(2, 5) {
 			continue // absent
 		}
@@ -458,7 +516,7 @@ func genCase(r *hx.Rand, tier string) caseT {
 	switch r.Intn(10) {
 	case 0, 1: // full mode on a compiled named type
 		c.Mode = 1
-		c.Named = hx.Pick(r, []string{"FullA", "FullB", "FullC"})
+		c.Named = hx.Pick(r, []string{"FullA", "FullB", "FullC", "FullE"})
 		t := describe(namedTypes[c.Named])
 		b, _ := json.Marshal(genObject(r, t, 0))
 		c.Body = string(b)
@@ -592,6 +650,10 @@ func showsOf(base string, v reflect.Value, depth int, out *[]string) {
 		t := v.Type()
 		for i := 0; i < t.NumField(); i++ {
 			name, _, _ := strings.Cut(t.Field(i).Tag.Get("json"), ",")
+			if isPromoted(t.Field(i)) {
+				showsOf(base, v.Field(i), depth+1, out) // its fields belong to the enclosing JSON object
+				continue
+			}
 			if name == "" || name == "-" {
 				name = t.Field(i).Name
 			}
@@ -608,6 +670,62 @@ func showsOf(base string, v reflect.Value, depth int, out *[]string) {
 	}
 }
 
+// isPromoted: an embedded struct (or pointer to struct) without json tag, whose fields
+// encoding/json promotes to the enclosing object.
+func isPromoted(f reflect.StructField) bool {
+	if !f.Anonymous || f.Tag.Get("json") != "" {
+		return false
+	}
+	t := f.Type
+	if t.Kind() == reflect.Pointer {
+		t = t.Elem()
+	}
+	return t.Kind() == reflect.Struct
+}
+
+// findField looks a JSON name up in a struct value the way encoding/json does for our types: direct
+// fields first, then the fields promoted from embedded structs (a nil embedded pointer has none).
+func findField(cur reflect.Value, part string) (reflect.Value, reflect.StructField, bool) {
+	fv, sf, _, ok := findField2(cur, part)
+	return fv, sf, ok
+}
+
+// findField2 also says whether the field was reached through an embedded struct.
+func findField2(cur reflect.Value, part string) (fv reflect.Value, sf reflect.StructField, promoted bool, ok bool) {
+	t := cur.Type()
+	for i := t.NumField() - 1; i >= 0; i-- {
+		if isPromoted(t.Field(i)) {
+			continue
+		}
+		name, _, _ := strings.Cut(t.Field(i).Tag.Get("json"), ",")
+		if name == "" || name == "-" {
+			name = t.Field(i).Name
+		}
+		if name == part {
+			return cur.Field(i), t.Field(i), false, true
+		}
+	}
+	for i := 0; i < t.NumField(); i++ {
+		if !isPromoted(t.Field(i)) {
+			continue
+		}
+		ev := cur.Field(i)
+		for ev.Kind() == reflect.Pointer {
+			if ev.IsNil() {
+				break
+			}
+			ev = ev.Elem()
+		}
+		if ev.Kind() != reflect.Struct {
+			continue
+		}
+		if fv, sf, ok := findField(ev, part); ok {
+			return fv, sf, true, true
+		}
+	}
+	return reflect.Value{}, reflect.StructField{}, false, false
+}
+
 func violOf(path string, e validator.FieldError) violT {
 	var sh []string
 	showsOf(path, reflect.ValueOf(e.Value()), 0, &sh)
@@ -620,6 +738,7 @@ type ruleT struct {
 	resolves  bool
 	tags      []violT
 	num       bool
+	emb       bool
 	cresolves bool
 	cpanic    bool
 	ctags     []string
@@ -676,11 +795,18 @@ func resolveOwn(root reflect.Value, path string) (val reflect.Value, fieldTag st
 // resolveOwn2 additionally reports whether a struct field with a numeric json name was passed
 // (as shipped, resolvePath treats every numeric segment as an index and gives up on a struct: K05d).
 func resolveOwn2(root reflect.Value, path string) (val reflect.Value, fieldTag string, levels int, numericField bool, ok bool) {
+	val, fieldTag, levels, numericField, _, ok = resolveOwn3(root, path)
+	return
+}
+
+// resolveOwn3 additionally reports whether a field promoted from an embedded struct lies on the
+// path (as shipped, resolvePath did not look into embedded structs: K05h).
+func resolveOwn3(root reflect.Value, path string) (val reflect.Value, fieldTag string, levels int, numericField, promoted bool, ok bool) {
 	cur := root
 	for _, part := range strings.Split(path, ".") {
 		for cur.Kind() == reflect.Pointer {
 			if cur.IsNil() {
-				return reflect.Value{}, "", 0, false, false
+				return reflect.Value{}, "", 0, false, false, false
 			}
 			cur = cur.Elem()
 		}
@@ -688,45 +814,36 @@ func resolveOwn2(root reflect.Value, path string) (val reflect.Value, fieldTag s
 		case reflect.Slice, reflect.Array:
 			idx, err := strconv.Atoi(part)
 			if err != nil || idx < 0 || idx >= cur.Len() {
-				return reflect.Value{}, "", 0, false, false
+				return reflect.Value{}, "", 0, false, false, false
 			}
 			cur = cur.Index(idx)
 			levels++
 		case reflect.Struct:
-			found := false
-			t := cur.Type()
-			for i := t.NumField() - 1; i >= 0; i-- {
-				name, _, _ := strings.Cut(t.Field(i).Tag.Get("json"), ",")
-				if name == "" || name == "-" {
-					name = t.Field(i).Name
-				}
-				if name == part {
-					fieldTag = t.Field(i).Tag.Get("validate")
-					cur = cur.Field(i)
-					levels = 0
-					found = true
-					break
-				}
-			}
+			fv, sf, prom, found := findField2(cur, part)
+			promoted = promoted || prom
 			if !found {
-				return reflect.Value{}, "", 0, false, false
+				return reflect.Value{}, "", 0, false, false, false
 			}
+			fieldTag = sf.Tag.Get("validate")
+			cur = fv
+			levels = 0
 			if _, err := strconv.Atoi(part); err == nil {
 				numericField = true
 			}
 		default:
-			return reflect.Value{}, "", 0, false, false
+			return reflect.Value{}, "", 0, false, false, false
 		}
 	}
-	return cur, fieldTag, levels, numericField, true
+	return cur, fieldTag, levels, numericField, promoted, true
 }
 
 func ruleFor(root reflect.Value, path string) ruleT {
 	rt := ruleT{path: path}
-	val, fieldTag, levels, numericField, ok := resolveOwn2(root, path)
+	val, fieldTag, levels, numericField, promoted, ok := resolveOwn3(root, path)
 	if !ok {
 		return rt
 	}
+	rt.emb = promoted
 	own := fieldTag
 	if levels > 0 {
 		own = elementRule(fieldTag, levels)
@@ -776,7 +893,15 @@ func fullErrs(ptr any, t reflect.Type) (out []fullT, ok bool) {
 			sns = strings.TrimPrefix(sns, t.Name()+".")
 		}
 		jp := jsonPathOf(sns, t)
-		out = append(out, fullT{jp, strings.ToLower(ns), violOf(jp, e)})
+		// the path as the code reported it before the repair of K05h: the validator's namespace with the
+		// top struct name dropped and indices as segments — the names of embedded structs included
+		ap := e.Namespace()
+		if t.Name() != "" {
+			ap = strings.TrimPrefix(ap, t.Name()+".")
+		}
+		ap = strings.NewReplacer("[", ".", "]", "").Replace(ap)
+		_ = ns
+		out = append(out, fullT{jp, ap, violOf(jp, e)})
 	}
 	return out, true
 }
@@ -798,8 +923,11 @@ func jsonPathOf(sns string, t reflect.Type) string {
 		if jn == "" {
 			jn = f.Name
 		}
-		segs = append(segs, jn)
 		cur = f.Type
+		if isPromoted(f) {
+			continue // the embedded struct itself is not part of the JSON path
+		}
+		segs = append(segs, jn)
 		for idx != "" {
 			var one string
 			one, idx, _ = strings.Cut(idx, "[")
@@ -1125,7 +1253,7 @@ func emit(id string, c caseT, st *hx.Stats) string {
 			l.Str(t.tag).Strs(t.shows)
 			tagNames = append(tagNames, t.tag)
 		}
-		l.Bool(r.num).Bool(r.cresolves).Bool(r.cpanic).Strs(r.ctags)
+		l.Bool(r.num).Bool(r.emb).Bool(r.cresolves).Bool(r.cpanic).Strs(r.ctags)
 		if len(r.tags) > 1 || len(r.ctags) > 1 {
 			single = false
 		}
@@ -1325,6 +1453,8 @@ func fixedCases() []caseT {
 		{Body: `{"userName":"ab","apiKey":"q2_short","Owner":{"name":"abc"},"rows":[["a"]],"kidsList":[{"name":"abc"}]}`, Named: "FullC", Mode: 1, Redact: []string{"apiKey", "rows.0.0"}},   // K05e
 		{Body: `{"email":"x","age":9,"nerr":2}`, Named: "FullV", Mode: 2, MaxErrors: 3},                                                                                                      // K05g
 		{Body: `{"email":"x","age":9,"nerr":4}`, Named: "FullV", Mode: 3, MaxErrors: 2},
+		{Body: `{"id":"x","kind":"zzz","name":"n","token":"short"}`, Named: "FullE", Mode: 0},                                                                                                                              // K05h
+		{Body: `{"id":"x","kind":"zzz","name":"n","token":"q9_short"}`, Named: "FullE", Mode: 1, Redact: []string{"token", "id"}},                                                                                          // K05h (full)
 		{Body: `{"1":"abc","2":{"3":"x"}}`, T: &TypeT{Fields: []FieldT{{JSON: "1", Kind: "string", Tag: "email"}, {JSON: "2", Kind: "struct", Sub: &TypeT{Fields: []FieldT{{JSON: "3", Kind: "string", Tag: "min=2"}}}}}}}, // K05d
 	}
 }
